@@ -511,8 +511,62 @@ static void check_timeseries(void)
             goto out;
         }
     }
+    /* closing ceremonies: extremes, then finalize gives the last sample its duration (on a series built afresh:
+     * sorting by time does not promise to restore the order of samples with equal time stamps) */
+    if (cmb_timeseries_min(&ts) != lo || cmb_timeseries_max(&ts) != hi) {
+        FAIL("min-max", "min %g max %g, data range [%g, %g]", cmb_timeseries_min(&ts), cmb_timeseries_max(&ts), lo, hi);
+        goto out;
+    }
+    {
+        static const double EXTRA[2] = { 0.0, 5.0 };
+        struct cmb_timeseries fs;
+        cmb_timeseries_initialize(&fs);
+        for (int i = 0; i < n; i++) {
+            cmb_timeseries_add(&fs, ref[i].x, ref[i].t);
+        }
+        const double tlast = ref[n - 1].t;
+        const double tf = tlast + EXTRA[(n + (int)xs[0]) % 2];
+        const uint64_t r = cmb_timeseries_finalize(&fs, tf);
+        bool ok = true;
+        if (r != (uint64_t)n + 1 || fs.ds.count != (uint64_t)n + 1 || fs.ds.xa[n] != ref[n - 1].x || fs.ta[n] != tf
+            || fs.wa[n - 1] != tf - tlast || fs.wa[n] != 0.0) {
+            FAIL("finalize", "finalize at t=%g of a %d-sample series ending (%g, t=%g): count %" PRIu64 ", last two samples "
+                 "(%g, t=%g, w=%g) (%g, t=%g, w=%g)", tf, n, ref[n - 1].x, tlast, fs.ds.count, fs.ds.xa[n - 1], fs.ta[n - 1],
+                 fs.wa[n - 1], fs.ds.xa[n], fs.ta[n], fs.wa[n]);
+            ok = false;
+        }
+        /* the finalized series weighs every original sample by its full duration */
+        if (ok) {
+            struct cmb_wtdsummary ws;
+            memset(&ws, 0, sizeof ws);
+            cmb_timeseries_summarize(&fs, &ws);
+            long double num = 0, den = 0;
+            for (int i = 0; i < n; i++) {
+                const double w = (i + 1 < n) ? ref[i].w : tf - tlast;
+                num += (long double)ref[i].x * w;
+                den += w;
+            }
+            if (den > 0) {
+                const double exact = (double)(num / den), gotm = cmb_wtdsummary_mean(&ws);
+                if (!(fabs(gotm - exact) <= 1e-12 * (1 + fabs(exact)))) {
+                    FAIL("finalized-mean", "time-weighted mean after finalize %.17g, exact %.17g", gotm, exact);
+                }
+            }
+        }
+        cmb_timeseries_terminate(&fs);
+    }
 out:
     cmb_timeseries_terminate(&ts);
+    if (n == 1 && vx_violations_this_exec() == 0) {
+        /* closing an object that never recorded anything (finalize asserts n == 0 || ... : an empty series is accepted) */
+        struct cmb_timeseries e;
+        cmb_timeseries_initialize(&e);
+        const uint64_t r = cmb_timeseries_finalize(&e, 3.0);
+        if (r > 1 || e.ds.count != r) {
+            FAIL("finalize-empty", "finalize of an empty series returned %" PRIu64 ", count %" PRIu64, r, e.ds.count);
+        }
+        cmb_timeseries_terminate(&e);
+    }
 }
 
 static void run_one(void)
